@@ -254,3 +254,42 @@ Proof.
   rewrite callee_present; [rewrite exec_list_nil; reflexivity|apply fold_remove_edge1_Inv; exact I|].
   unfold has, s1. rewrite fold_remove_edge1_get, Nin, G. reflexivity.
 Qed.
+
+(* ---------- remove_simplex_ids_from(ebunch) ---------- *)
+Lemma Inv_remove_simplex_id idx s : Inv s -> Inv (st_of (remove_simplex_id idx s)).
+Proof.
+  intro I. unfold remove_simplex_id. destruct (get idx (h_edge s)) as [ms|]; [|exact I].
+  rewrite st_of_ok. apply Inv_remove_edge1. apply fold_remove_edge1_Inv. exact I.
+Qed.
+
+Definition model_supf (s : hg) (idx : lbl) : list lbl :=
+  match get idx (h_edge s) with Some ms => supfaces_id s ms | None => [] end.
+
+Lemma remove_ids_loop_ok al : forall ids s, Inv s ->
+  loop (fun s idx => match run_guards src_sc_remove_ids_guards (mkEnv [idx] [] LNone [] LNone [al] [] None LNone []) s with
+                     | Some r => r
+                     | None => run_remove_simplex_id src_sc_remove_simplex_id_public idx (model_supf s idx) s
+                     end) ids s
+  = loop (fun s idx => if mem idx al && negb (has idx (h_edge s)) then ok s else remove_simplex_id idx s) ids s.
+Proof.
+  induction ids as [|idx ids IH]; intros s I; [reflexivity|]. cbn [loop].
+  assert (Step : match run_guards src_sc_remove_ids_guards (mkEnv [idx] [] LNone [] LNone [al] [] None LNone []) s with
+                 | Some r => r
+                 | None => run_remove_simplex_id src_sc_remove_simplex_id_public idx (model_supf s idx) s
+                 end = (if mem idx al && negb (has idx (h_edge s)) then ok s else remove_simplex_id idx s)).
+  { unfold src_sc_remove_ids_guards. cbn [run_guards beval veval e_args e_locals nth tab].
+    destruct (mem idx al); cbn [andb].
+    - destruct (has idx (h_edge s)); cbn [negb]; [|reflexivity].
+      apply (sc_remove_simplex_id_public_is_source idx s I).
+    - apply (sc_remove_simplex_id_public_is_source idx s I). }
+  rewrite Step.
+  assert (I' : Inv (st_of (if mem idx al && negb (has idx (h_edge s)) then ok s else remove_simplex_id idx s))).
+  { destruct (mem idx al && negb (has idx (h_edge s))); [exact I|apply Inv_remove_simplex_id; exact I]. }
+  destruct (if mem idx al && negb (has idx (h_edge s)) then ok s else remove_simplex_id idx s) as [[s1 o1] w1].
+  cbn [st_of fst] in I'. destruct o1; [|reflexivity]. rewrite (IH s1 I'). reflexivity.
+Qed.
+
+Theorem sc_remove_simplex_ids_from_is_source ids s : Inv s ->
+  run_remove_simplex_ids_from src_sc_remove_ids_guards src_sc_remove_simplex_id_public model_supf ids s
+  = remove_simplex_ids_from ids s.
+Proof. intro I. unfold run_remove_simplex_ids_from, remove_simplex_ids_from. apply remove_ids_loop_ok. exact I. Qed.
